@@ -27,6 +27,22 @@ def fetchRefs (env : Env W HS) : List String → M W HS Unit
   | [] => pure ()
   | x :: xs => do fetchRef env x; fetchRefs env xs
 
+/-- a closure variable is read at entry (`x` alone, or `interact('x', None, None, x, False)`): the handler is
+    shown the value and may not override it; nothing is bound -/
+def freeHook (env : Env W HS) (x : String) : M W HS Unit :=
+  match env.hk with
+  | none => pure ()
+  | some cfg => do
+    let v ← lookup env x
+    if shouldInstr cfg x [] then do
+      let _ ← interactSem env x .noneV (annValOpt env none) v false
+      pure ()
+    else pure ()
+
+def freeHooks (env : Env W HS) : List String → M W HS Unit
+  | [] => pure ()
+  | x :: xs => do freeHook env x; freeHooks env xs
+
 /-- parameters are bound by the call; the handler sees each of them in order -/
 def paramHook (env : Env W HS) (p : Param) : M W HS Unit :=
   match env.hk with
@@ -60,6 +76,7 @@ def runRef (env : Env W HS) (fuel : Nat) (f : FunDef) : Exec W HS :=
     seqX (stepM (do
         hookMetas env (some enterAnn) ["#enter"]
         fetchRefs env (sortNames c.external)
+        freeHooks env (sortNames c.free)
         paramHooks env f.params) fun _ => done .normal)
       (execB env fuel (bodyWithReturn f))
   match env.hk with
